@@ -9,6 +9,7 @@ CONSTANTS
   Forge22 = {"resign_stranger"}
   Forge32 = {"resign_stranger"}
   MaxReq = 7
+  WithMutants = FALSE
 CONSTRAINT Bound
 INVARIANTS TypeOK InOrder ErrorsHaveNoEffect NoTokenNoService FinalKills EffectsNeedProof ProvenOnlyByHonest64 ForgedRefused RedirectNeedsRegistration
 PROPERTIES DeadStaysDead StoresChangeOnlyByProtocol
